@@ -15,7 +15,8 @@ from vf import gen, harness, refdec, synth, treecheck
 
 ID = "C05"
 LEVEL = "exploration"
-RULE = ("exhaustive sweeps, one dimension at a time with everything else random: attitude point count N = 1..floor((L-16)/120) "
+RULE = ("(every other trailer mixes sample widths between its images) "
+        "exhaustive sweeps, one dimension at a time with everything else random: attitude point count N = 1..floor((L-16)/120) "
         "for record length L = 16384 (136 points) and for the tight lengths L = 16+120N; channel count 1..16; map-projection "
         "record count 0/1; each of facility records 1-4 with every declared length 66..66+4200 (quick: every 23rd + edges); "
         "file-pointer count 0..16 in the volume directory; trailer low-resolution image count 0..7 x sample width 1/2/4/8 bytes "
